@@ -52,6 +52,7 @@ type Params struct {
 	NNear  int     `json:"nnear"`  // near fillers: known objects placed at their own random shapes
 	NFar   int     `json:"nfar"`   // anonymous far objects
 	NExtra int     `json:"nextra"` // random off-grid query points
+	NRing  int     `json:"nring"`  // near-tie fillers: this many points in each of two annuli, about 10 cm apart in distance
 	Seed   int64   `json:"seed"`
 }
 
@@ -69,6 +70,7 @@ type World struct {
 	Far       []FarObj  `json:"far"`
 	FarLB     []int64   `json:"far_lb_mm"`
 	Pats      []string  `json:"pats"`
+	RingQ     []int     `json:"ring_queries"` // 1-based query points the near-tie annuli are centred on
 	// diagnostics
 	MaxKnownMM  int64 `json:"max_known_mm"`
 	MinFarLBMM  int64 `json:"min_far_lb_mm"`
@@ -272,11 +274,14 @@ func Build(p Params) (*World, error) {
 			addQ(cellLat[r], cellLon[c])
 		}
 	}
+	poleQ := -1
 	if latHi > 89.5 {
+		poleQ = len(w.Queries)
 		addQ(90, 0)
 		addQ(90, -135)
 	}
 	if latLo < -89.5 {
+		poleQ = len(w.Queries)
 		addQ(-90, 0)
 		addQ(-90, 77)
 	}
@@ -287,6 +292,30 @@ func Build(p Params) (*World, error) {
 	for i := 0; i < p.NExtra; i++ {
 		la, lo := randPos()
 		addQ(la, lo)
+	}
+
+	// ---- near ties: two annuli of known objects around two query points, in random directions (so that they sit
+	// in different leaves of a deep tree), about 10 cm apart in distance: the order among them is decided by
+	// centimetres, i.e. by the exactness of the item distances and the admissibility of the node bounds
+	if p.NRing > 0 && len(w.Queries) > 0 {
+		for ring := 0; ring < 2; ring++ {
+			q := w.Queries[len(w.Queries)-1-ring]
+			if ring == 1 && poleQ >= 0 {
+				// seen from a pole every rectangle is "due north / south": every node bound is tight
+				q = w.Queries[poleQ]
+				w.RingQ = append(w.RingQ, poleQ+1)
+			} else {
+				w.RingQ = append(w.RingQ, len(w.Queries)-ring)
+			}
+			base := (0.15 + 0.2*float64(ring)) * GreatCircle(latLo, lonLo, latHi, lonLo)
+			for j := 0; j < p.NRing; j++ {
+				la, lo := destination(q.LatF, q.LonF, rng.Float64()*2*math.Pi, base+0.1*float64(p.NRing)*rng.Float64())
+				w.Shapes = append(w.Shapes, pointShape("pt", clampLat(la), wrapLon(lo)))
+				w.IDs = append(w.IDs, fmt.Sprintf("r%d%03d", ring, j))
+				w.InitAt = append(w.InitAt, len(w.Shapes))
+				w.InitF = append(w.InitF, rng.Intn(2))
+			}
+		}
 	}
 
 	// ---- distance table
